@@ -709,8 +709,8 @@ impl Family for StmtLifecycles {
 /// lists once more in another order. For bounded caches of encoded definitions (wrong once full
 /// or once they evict) and for per-connection counters of definition blocks. Every header of the
 /// session is compared with what was declared.
-struct ManyShapes {
-    ns: Vec<usize>,
+pub struct ManyShapes {
+    pub ns: Vec<usize>,
 }
 impl ManyShapes {
     /// `one_table`: every list belongs to the same table (state remembered per table then meets a
